@@ -172,22 +172,24 @@ def isStale (d : DirMeta) : Bool := d.bm.stale
 def isSelected (d : DirMeta) : Bool := !d.bm.stale && d.bm.selected
 def isNonHint (d : DirMeta) : Bool := !d.bm.stale && !d.bm.selected
 
+/-- number of non-empty classes (`classes` in the code) -/
+def classCount (dms : List DirMeta) : Nat :=
+  (if (dms.filter isStale).isEmpty then 0 else 1) + (if (dms.filter isSelected).isEmpty then 0 else 1)
+    + (if (dms.filter isNonHint).isEmpty then 0 else 1)
+
+/-- the `classes > 1` branch: regular first, then stale, then selected -/
+def planMulti (cfg : Cfg) (dms : List DirMeta) : Except Err (List DirMeta) :=
+  match planClass cfg (dms.filter isNonHint) with
+  | .error e => .error e
+  | .ok res =>
+    if !res.isEmpty then .ok res else
+    match planClass cfg (dms.filter isStale) with
+    | .error e => .error e
+    | .ok res => if !res.isEmpty then .ok res else planClass cfg (dms.filter isSelected)
+
 def plan (cfg : Cfg) (dms : List DirMeta) : Except Err (List DirMeta) :=
   if dms.isEmpty then .ok [] else
-  let stale := dms.filter isStale
-  let selected := dms.filter isSelected
-  let nonHint := dms.filter isNonHint
-  let classes := (if stale.isEmpty then 0 else 1) + (if selected.isEmpty then 0 else 1)
-                 + (if nonHint.isEmpty then 0 else 1)
-  if classes > 1 then
-    match planClass cfg nonHint with
-    | .error e => .error e
-    | .ok res =>
-      if !res.isEmpty then .ok res else
-      match planClass cfg stale with
-      | .error e => .error e
-      | .ok res => if !res.isEmpty then .ok res else planClass cfg selected
-  else planClass cfg dms
+  if classCount dms > 1 then planMulti cfg dms else planClass cfg dms
 
 /-- The listing the planner receives for a list of metas: position = dir. -/
 def enumFrom (k : Nat) : List Meta → List DirMeta
